@@ -155,6 +155,27 @@ class Engine(Interp, ExecMixin, EvalMixin, CallMixin, BuiltinMixin):
                 st.ghost.setdefault("effects", []).append(("call:" + short, "call:" + short, list(args), dict(kwargs), res))
                 for e in c.ensures:
                     st.assume(self.truthy(st, self.ev_spec(st, e)))
+                if not spec_mode and len(st.frames) >= 2:
+                    # ghost lemma calls the caller's contract places right after a normal return of this callee
+                    cfr2 = st.frames[-2]
+                    cc2 = getattr(cfr2, "contract", None)
+                    las = ((cc2.options.get("lemma_after") or {}).get(short, []) if cc2 is not None else [])
+                    if las:
+                        st.frames.pop()
+                        try:
+                            extra_it = st.ghost["__it"][-1] if st.ghost.get("__it") else None
+                            for le in las:
+                                if extra_it is not None:
+                                    cfr2.env["it"] = zint(extra_it)
+                                cfr2.env["RESULT"] = res
+                                try:
+                                    self.ev(st, le)
+                                finally:
+                                    cfr2.env.pop("RESULT", None)
+                                    if extra_it is not None:
+                                        cfr2.env.pop("it", None)
+                        finally:
+                            st.frames.append(fr)
                 return res
             for e in c.ensures_raise:
                 st.assume(self.truthy(st, self.ev_spec(st, e)))
@@ -168,14 +189,19 @@ class Engine(Interp, ExecMixin, EvalMixin, CallMixin, BuiltinMixin):
         """A contract-cut call inside a comprehension body (the element variable is bound): the result is a skolem
         function of the bound variables and the postconditions are assumed closed over them.  Only callees that cannot
         raise and have no precondition and no frame are admitted (nothing would check those under the binder)."""
-        if conds or nd or mri or c.modifies:
-            raise OutsideSubset(f"call of {short} under a binder: the callee has raises/modifies clauses")
-        if c.requires:
-            in_code = bool(st.ghost.get("__comp_code")) and st.ghost["__comp_code"][-1]
-            if in_code:
-                # the precondition must hold for every element: handed to the enclosing comprehension as an obligation per index
-                pre = z3.And([self.truthy(st, self.ev_spec(st, r)) for r in c.requires])
-                st.ghost.setdefault("__pending_pre", []).append((st.bound[-1], pre, short))
+        if nd or mri or c.modifies:
+            raise OutsideSubset(f"call of {short} under a binder: the callee has may_raise/must_raise/modifies clauses")
+        in_code = bool(st.ghost.get("__comp_code")) and st.ghost["__comp_code"][-1]
+        guards = list(st.ghost.get("__guards") or [])
+        if (c.requires or conds) and in_code:
+            # the precondition must hold, and no raise condition may hold, for every element (of the receiver classes this
+            # alternative is for): handed to the enclosing comprehension as an obligation per index
+            pre = z3.And([self.truthy(st, self.ev_spec(st, r)) for r in c.requires] + [z3.Not(cc) for _, cc in conds])
+            if guards:
+                pre = z3.Implies(z3.And(guards), pre)
+            st.ghost.setdefault("__pending_pre", []).append((st.bound[-1], pre, short))
+        if conds and all(z3.is_true(z3.simplify(cc)) for _, cc in conds):
+            raise PyRaise(self.make_exc(st, conds[0][0], []))       # always raises: no value for this alternative
         rt = self.resolve_T(parse_T(c.returns)) if c.returns else None
         if rt is None or not rt.is_smt():
             raise OutsideSubset(f"call of {short} under a binder: result sort {c.returns} is not an SMT sort")
@@ -186,6 +212,8 @@ class Engine(Interp, ExecMixin, EvalMixin, CallMixin, BuiltinMixin):
         env["result" if "result" not in [p for p, _ in c.params] else "result_"] = res
         for e in c.ensures:
             g = self.truthy(st, self.ev_spec(st, e))
+            if guards:
+                g = z3.Implies(z3.And(guards), g)
             # handed to the enclosing comprehension, which states it per index of its source sequence (seq_map_core)
             st.ghost.setdefault("__pending_binder", []).append((bs[-1], g))
         return res
@@ -678,6 +706,7 @@ def discharge(eng: Engine, rep: dict, timeout_ms=10000, second_opinion=False) ->
     t_solver = 0.0
     for name, os_ in groups.items():
         verdict, worst, queries, tsum, backend = "proved", None, 0, 0.0, set()
+        tmax = 0.0
         seen = set()
         for o in os_:
             g = z3.simplify(o.goal)
@@ -705,11 +734,29 @@ def discharge(eng: Engine, rep: dict, timeout_ms=10000, second_opinion=False) ->
             stop = False
             for pc_ in pieces:
                 for cs in cases:
+                    eg0 = prep.ext_goal(pc_["goal"])
+                    v, info = None, {}
+                    if eg0 is not None:
+                        # an equality of sequences: the extensionality rule (equal lengths, equal elements) is tried first,
+                        # the solver's own sequence reasoning only afterwards
+                        ok0 = True
+                        for p2 in prep.prepare(pc_["hyps_full"], eg0, extra_terms=o.meta.get("_terms") or ()):
+                            v2, info2 = solve_piece(p2["hyps_qf"], p2["hyps_full"], p2["goal"], min(timeout_ms, 20000), cs, p2.get("hyps_small"))
+                            queries += 1
+                            tsum += info2.get("time", 0)
+                            tmax = max(tmax, info2.get("time", 0))
+                            backend.add(info2.get("backend", "?"))
+                            if v2 != "unsat":
+                                ok0 = False
+                                break
+                        if ok0:
+                            continue
                     v, info = solve_piece(pc_["hyps_qf"], pc_["hyps_full"], pc_["goal"], timeout_ms, cs, pc_.get("hyps_small"))
                     queries += 1
                     tsum += info.get("time", 0)
+                    tmax = max(tmax, info.get("time", 0))
                     backend.add(info.get("backend", "?"))
-                    if v != "unsat":
+                    if v != "unsat" and eg0 is None:
                         eg = prep.ext_goal(pc_["goal"])
                         if eg is not None:
                             ok = True
@@ -738,6 +785,7 @@ def discharge(eng: Engine, rep: dict, timeout_ms=10000, second_opinion=False) ->
             if stop:
                 break
         out[name] = {"kind": os_[0].kind, "verdict": verdict, "queries": queries, "instances": len(os_), "solver_s": round(tsum, 3),
+                     "max_piece_s": round(tmax, 3),
                      "backend": sorted(backend), "detail": worst}
         total_q += queries
         t_solver += tsum
